@@ -102,6 +102,18 @@ def mon_connack(tr, sc):
             elif l.split()[:2] in (["rs", "parked"], ["rs", "msg"], ["rs", "big"]) and cur is not None and \
                     conn_reply.get(cur) is not None and len(conn_reply[cur]) >= 4:
                 beyond.add(cur)
+    # a CONNACK with a non-zero return code is a refusal by the broker, whatever the code (1-255): IsConnectionRefused tells so
+    nconn2 = 0
+    for i, (op, lines) in enumerate(tr):
+        for l in lines:
+            if l.startswith("ev dial ok"):
+                rep = conn_reply.get(nconn2)
+                nconn2 += 1
+                if rep is not None and len(rep) == 4 and rep[0] == 0x20 and rep[1] == 2 and rep[2] == 0 and rep[3] != 0:
+                    errs = [x for x in lines if x.startswith("rs err ")]
+                    if errs and not any(t.startswith("refused") for t in errs[0].split()[2].split("+")) and "closed" not in errs[0]:
+                        out.append(("setup:refusal-not-told", "the broker refused the connection with return code %d, ReadSlices returned `%s`: not an IsConnectionRefused error"
+                                    % (rep[3], errs[0])))
     for c in sorted(beyond):
         rep = conn_reply.get(c)
         if rep is None or len(rep) < 4:
